@@ -243,6 +243,37 @@ pub fn cited_line(text: &str) -> Option<u64> {
     None
 }
 
+/// The run loop's messages of one segment as whole lines: a message may be written in several
+/// pieces (several print! calls) or several messages in one; what counts is the text up to each
+/// line end. Pieces are joined while they follow each other without another writer in between.
+pub fn runloop_lines(events: &[Event]) -> Vec<String> {
+    let mut out = Vec::new();
+    let mut buf = String::new();
+    let flush = |buf: &mut String, out: &mut Vec<String>| {
+        if !buf.is_empty() {
+            out.push(std::mem::take(buf));
+        }
+    };
+    for e in events {
+        match e {
+            Event::Rec { origin: Origin::RunLoop, text, .. } => {
+                for ch in text.chars() {
+                    if ch == '\n' {
+                        buf.push('\n');
+                        flush(&mut buf, &mut out);
+                    } else {
+                        buf.push(ch);
+                    }
+                }
+            }
+            Event::Rec { .. } | Event::Line { .. } | Event::Probe { .. } => flush(&mut buf, &mut out),
+            _ => {}
+        }
+    }
+    flush(&mut buf, &mut out);
+    out
+}
+
 fn stepping_active(scn: &Scenario, regs: &[u16; 14]) -> bool {
     scn.interpreted || regs[R_FLAGS] & TF_BIT != 0
 }
@@ -274,8 +305,8 @@ pub fn check_c16(case: &Case, h: &History) -> Vec<Violation> {
         let want = gen.idx_line[s.idx] as u64;
         let want_text = lines.get(want as usize - 1).map(|l| shown_text(l)).unwrap_or_default();
         let kind = instr_kind(gen, s.idx);
-        for e in s.events {
-            if let Event::Rec { origin: Origin::RunLoop, text, .. } = e {
+        for text in runloop_lines(s.events).iter() {
+            {
                 if text.starts_with("Internal Error") {
                     continue;
                 }
@@ -1139,12 +1170,10 @@ pub fn check_c20(case: &Case, h: &History, alts: &[History]) -> Vec<Violation> {
                 let want = g.idx_line[s.idx] as u64;
                 let first = &sessions[0];
                 let mut cited = None;
-                for e in &s.events[..first.from.min(s.events.len())] {
-                    if let Event::Rec { origin: Origin::RunLoop, text, .. } = e {
-                        if let Some(c) = cited_line(text) {
-                            cited = Some((c, text.clone()));
-                            break;
-                        }
+                for text in runloop_lines(&s.events[..first.from.min(s.events.len())]).iter() {
+                    if let Some(c) = cited_line(text) {
+                        cited = Some((c, text.clone()));
+                        break;
                     }
                 }
                 match cited {
